@@ -80,20 +80,20 @@ func main() {
 	if len(p.Ecos) == 0 {
 		fatalf("no ecosystems discovered")
 	}
-	func() {
-		defer func() {
-			if e := recover(); e != nil {
-				// an analyser panic is a failure of the check, never a pass
-				r.Und("ANALYSER", "panic", "-", fmt.Sprint(e))
-				if os.Getenv("GVCHECK_DEBUG") != "" {
-					panic(e)
+	for i, fn := range rules {
+		func() {
+			defer func() {
+				if e := recover(); e != nil {
+					// an analyser panic is a failure of the check, never a pass
+					r.Und("ANALYSER", fmt.Sprintf("panic in rule function %d of %s", i+1, *prop), "-", fmt.Sprint(e))
+					if os.Getenv("GVCHECK_DEBUG") != "" {
+						panic(e)
+					}
 				}
-			}
-		}()
-		for _, fn := range rules {
+			}()
 			fn(p, r)
-		}
-	}()
+		}()
+	}
 	if *knownPath == "" {
 		*knownPath = *verif + "/known_findings.json"
 	}
